@@ -62,6 +62,16 @@ def domain_inputs(tier: str, seed: int, doms: str = "XRBS", scale: float = 1.0) 
         for g in rngl.sample(src, min(len(src), int((300 if quick else 3000) * scale))):
             names = rngl.sample(pool, len(g))
             out.append({"dom": "N", "named": {names[u]: [names[v] for v in g[u]] for u in range(len(g))}, "lex": True})
+    if "M" in doms:
+        from . import manual
+
+        out += manual.inputs()
+    if "V" in doms:
+        # histories in which the loop and branch stages are driven through the sub-graph objects of the top-level regions
+        rngv = random.Random(seed * 911 + 3)
+        src = [g for g in domains.closed_cfgs(4)] + closed5_canon() + list(domains.random_domain(seed * 5 + 1, 200, 6, 10))
+        for g in rngv.sample(src, min(len(src), int((300 if quick else 3000) * scale))):
+            out.append({"dom": "R", "g": [list(s) for s in g], "via_subgraphs": True})
     if "K" in doms:
         for g in domains.control_heavy_domain(seed * 15485863 + 29, int((250 if quick else 2500) * scale), pool=6000 if quick else 60000):
             out.append({"dom": "K", "g": [list(s) for s in g]})
@@ -95,6 +105,10 @@ def build(inp: Dict[str, Any], pids: PayloadIds) -> Any:
     if d in ("X", "X5", "R", "G", "K"):
         g = tuple(tuple(s) for s in inp["g"])
         return build_scfg(domains.graph_to_named(g))
+    if d == "M":  # hand-made graph (harness/manual.py)
+        from . import manual
+
+        return manual.build(inp["which"])
     if d == "N":  # named graph
         return build_scfg(inp["named"], used_generator=bool(inp.get("usedgen")))
     if d == "B":
@@ -250,6 +264,7 @@ def _one(inp: Dict[str, Any], pids: PayloadIds, t0: float, opts: Dict[str, Any],
             stage_states=bool(opts.get("stages", True)) or True,
             names=bool(opts.get("names", False)),
             reload_between=bool(opts.get("reload", False)) and bool(inp.get("reload", True)),
+            via_subgraphs=bool(inp.get("via_subgraphs")),
         )
         dt = time.time() - t0
         case = _compact_case(beh, opts.get("stages", True), opts.get("events", False))
